@@ -459,7 +459,9 @@ def case_C07(seed):
         return None
     w = worse(cur, ref, f"pruned (W={case['cfg']['max_lattice_width']}) vs unpruned")
     if w and not viol:
-        viol.append(('C07:pruned-better-than-unpruned' + (':with-non-emitting-states' if case['cfg'].get('non_emitting_states') else ''), w, {'case': U.case_repr(case), 'pruned': cur, 'unpruned': ref}))
+        viol.append(('C07:pruned-better-than-unpruned' + (':with-non-emitting-states' if case['cfg'].get('non_emitting_states') else
+                                                           (':with-going-back-penalties' if case['cfg'].get('avoid_goingback', True) else '')),
+                     w, {'case': U.case_repr(case), 'pruned': cur, 'unpruned': ref}))
     # widening sequence on the same matcher
     W = case['cfg']['max_lattice_width']
     seq = sorted(W + rnd.randint(0, 3) for _ in range(rnd.randint(1, 3)))
